@@ -323,6 +323,70 @@ Fixpoint veq (a b : value) {struct a} : option bool :=
   end.
 
 (* ---------------------------------------------------------------------------------------- *)
+(* what the property TEXT pins of the observations above (round 5)                           *)
+(*                                                                                            *)
+(* to_int .. to_u64 and veq are total reference functions: where the text is silent they      *)
+(* follow the code (strtol / strtoul saturation then a 32-bit wrap for a decimal string whose *)
+(* value the target type cannot hold - nothing in the library documents that case, and atoi   *)
+(* / atoll leave it undefined; two maps with the same entries inserted in a different order   *)
+(* compare unequal - the text only says that a Variant equals its copies).  The predicates    *)
+(* below say where the text does decide; the expected observation of the property oracle      *)
+(* (driver mode `spec`) shows `?` everywhere else, so those choices are compared with the     *)
+(* code by the model/implementation correspondence only.                                      *)
+(* ---------------------------------------------------------------------------------------- *)
+
+(* the integer a decimal string denotes (C-string view, leading white space, sign, digits) *)
+Definition str_value (s : bytes) : Z := let '(neg, v) := parse_int s in if neg then - v else v.
+
+(* a string converts to an integral type by the text only when the type can hold its value *)
+Definition str_fits (lo hi : Z) (v : value) : bool :=
+  match v with VStr s => (lo <=? str_value s) && (str_value s <? hi) | _ => true end.
+Definition int_pinned (v : value) : bool := str_fits (- 2147483648) 2147483648 v.
+Definition uint_pinned (v : value) : bool := str_fits 0 4294967296 v.
+Definition i64_pinned (v : value) : bool := str_fits (- 9223372036854775808) 9223372036854775808 v.
+Definition u64_pinned (v : value) : bool := str_fits 0 18446744073709551616 v.
+
+(* `s == b` with a scalar on the left converts b to the type of s *)
+Definition eq_scalar_pinned (s : scalar) (b : value) : bool :=
+  match s with
+  | SInt _ => int_pinned b | SUInt _ => uint_pinned b | SI64 _ => i64_pinned b | SU64 _ => u64_pinned b
+  | _ => true
+  end.
+
+Fixpoint keys_eqb (a b : list bytes) : bool :=
+  match a, b with
+  | [], [] => true
+  | x :: a', y :: b' => bytes_eqb x y && keys_eqb a' b'
+  | _, _ => false
+  end.
+Definition key_in (k : bytes) (l : list bytes) : bool := existsb (bytes_eqb k) l.
+(* the same key set (keys of one map are distinct) in another order *)
+Definition keys_permuted (a b : list bytes) : bool :=
+  negb (keys_eqb a b) && (length a =? length b)%nat && forallb (fun k => key_in k b) a && forallb (fun k => key_in k a) b.
+
+(* does the text decide `a == b`?  Items are visited in the order veq visits them; an earlier decided difference decides. *)
+Fixpoint veq_pinned (a b : value) {struct a} : bool :=
+  match a with
+  | VS s => eq_scalar_pinned s b
+  | VStr _ => match b with VS sb => eq_scalar_pinned sb a | _ => true end
+  | VNode k ks vs =>
+      match b with
+      | VNode k' ks' vs' =>
+          if kind_eqb k k' && (length vs =? length vs')%nat then
+            if keys_permuted ks ks' then false else
+            if negb (keys_eqb ks ks') then true else
+            (fix go (l l' : list value) {struct l} : bool :=
+               match l, l' with
+               | x :: xs, y :: ys =>
+                   if veq_pinned x y then match veq x y with Some true => go xs ys | _ => true end else false
+               | _, _ => true
+               end) vs vs'
+          else true
+      | _ => true
+      end
+  end.
+
+(* ---------------------------------------------------------------------------------------- *)
 (* paths and the operations of a history                                                      *)
 (* ---------------------------------------------------------------------------------------- *)
 
